@@ -16,6 +16,9 @@ import (
 	"context"
 	"errors"
 	"fmt"
+	"go.opentelemetry.io/collector/consumer/consumererror"
+	"google.golang.org/grpc/codes"
+	"google.golang.org/grpc/status"
 	"hash/fnv"
 	"math"
 	"math/rand"
@@ -55,6 +58,26 @@ func h32(parts ...any) uint32 {
 }
 
 var errDownstream = errors.New("downstream refused (scripted)")
+
+// downstreamErrs: what a downstream consumer really returns when it refuses data — a plain error, a permanent one, a
+// caller that hung up (context.Canceled, also wrapped), an expired deadline, a gRPC status. Whatever it is, the
+// operation's items were refused.
+var downstreamErrs = []error{
+	errDownstream,
+	consumererror.NewPermanent(errDownstream),
+	context.Canceled,
+	fmt.Errorf("forwarding to the next consumer: %w", context.Canceled),
+	context.DeadlineExceeded,
+	fmt.Errorf("export: %w", context.DeadlineExceeded),
+	status.Error(codes.Unavailable, "downstream unavailable (scripted)"),
+	status.Error(codes.Canceled, "downstream cancelled (scripted)"),
+}
+
+var downstreamErrN atomic.Int64
+
+func nextDownstreamErr() error {
+	return downstreamErrs[int(downstreamErrN.Add(1))%len(downstreamErrs)]
+}
 
 func mkIDs(tag string, n int) []string {
 	ids := make([]string, n)
@@ -119,7 +142,7 @@ func runRecv(c *driver.Ctx, rc RecvCase) {
 				op := rc.Ops[i]
 				var e error
 				if op.Err {
-					e = errDownstream
+					e = nextDownstreamErr()
 				}
 				switch op.Signal {
 				case "logs":
@@ -235,7 +258,7 @@ func runScrape(c *driver.Ctx, sc ScrapeCase) {
 		if sc.SinkErr[int(i)%len(sc.SinkErr)] {
 			refused += int64(n)
 			errCalls++
-			return errDownstream
+			return nextDownstreamErr()
 		}
 		accepted += int64(n)
 		okCalls++
